@@ -430,7 +430,7 @@ Section Machine2.
       match class_alloc bc chunk cs fresh with
       | COk (cs', b, _) => run cs' (b :: live) r
       | CErrOracle => CErrOracle | CErrCorrupt => CErrCorrupt
-      | CErrBadFree => CErrBadFree | CErrUnmodelled => CErrUnmodelled
+      | CErrBadFree => CErrBadFree | CErrUnmodelled => CErrUnmodelled | CNull => CNull
       end
     | CFree b :: r =>
       match remove_one b live with
@@ -439,7 +439,7 @@ Section Machine2.
         match class_free bc cs b with
         | COk cs' => run cs' live' r
         | CErrOracle => CErrOracle | CErrCorrupt => CErrCorrupt
-        | CErrBadFree => CErrBadFree | CErrUnmodelled => CErrUnmodelled
+        | CErrBadFree => CErrBadFree | CErrUnmodelled => CErrUnmodelled | CNull => CNull
         end
       end
     end.
@@ -451,14 +451,14 @@ Section Machine2.
     match run cs live ops with
     | COk (cs', live') => all_good cs' live'
     | CErrOracle | CErrBadFree => True      (* the environment / the caller broke a precondition *)
-    | CErrCorrupt | CErrUnmodelled => False
+    | CErrCorrupt | CErrUnmodelled | CNull => False
     end.
   Proof.
     induction ops as [|op r IH]; intros cs live (Iv & N & R); simpl.
     - split; [assumption | split; assumption].
     - destruct op as [fresh | b].
       + pose proof (class_alloc_safe bc chunk bc_range chunk_ok cs live fresh Iv) as A.
-        destruct (class_alloc bc chunk cs fresh) as [[[cs' b] u]| | | |]; try contradiction; [|exact I].
+        destruct (class_alloc bc chunk cs fresh) as [[[cs' b] u]| | | | |]; try contradiction; [|exact I].
         destruct A as (I' & Nin & Rb). apply IH. split; [assumption|]. split.
         * constructor; assumption.
         * intros b' [H | H]; [subst; assumption | auto].
@@ -474,7 +474,7 @@ Section Machine2.
     match run class_empty [] ops with
     | COk (cs', live') => all_good cs' live'
     | CErrOracle | CErrBadFree => True
-    | CErrCorrupt | CErrUnmodelled => False
+    | CErrCorrupt | CErrUnmodelled | CNull => False
     end.
   Proof.
     intros. apply run_safe. split; [apply class_inv_empty; lia|]. split; [constructor | intros b H; destruct H].
@@ -525,7 +525,7 @@ Lemma span_machine_history : forall psh c, valid_class c -> forall ops,
   match run (class_bc c) (chunk_of psh (class_bs c) (class_bc c)) class_empty [] ops with
   | COk (cs, live) => class_inv (class_bc c) cs live /\ NoDup live /\ (forall b, In b live -> 0 <= snd b < class_bc c)
   | CErrOracle | CErrBadFree => True
-  | CErrCorrupt | CErrUnmodelled => False
+  | CErrCorrupt | CErrUnmodelled | CNull => False
   end.
 Proof.
   intros psh c V ops.
